@@ -363,3 +363,120 @@ Section Order.
     Qed.
   End HopOrder.
 End Order.
+
+(* ---- the same for a list-valued field ---- *)
+(* completed values equal up to member order *)
+Definition crel (c c' : cres) : Prop :=
+  c_viol c = c_viol c' /\ jperm (c_json c) (c_json c') /\ is_null (c_json c) = is_null (c_json c') /\
+  (c_errs c = [] <-> c_errs c' = []) /\ (c_viol c = true -> c_errs c <> [] /\ c_errs c' <> []).
+
+Lemma crel_refl c : (c_viol c = true -> c_errs c <> []) -> crel c c.
+Proof. intros H. repeat split; try tauto; try apply JP_refl; apply H; assumption. Qed.
+
+Lemma nonnull_wrap_crel q c c' : crel c c' -> crel (nonnull_wrap q c) (nonnull_wrap q c').
+Proof.
+  intros (Hv & Hj & Hn & He & Hve). unfold nonnull_wrap.
+  destruct (c_json c) eqn:E1; destruct (c_json c') eqn:E2; cbn [is_null] in Hn; try discriminate;
+    try (repeat split; rewrite ?E1, ?E2; cbn [c_viol c_json c_errs is_null]; try tauto; try assumption; try apply Hve; assumption).
+  cbn [c_viol c_json c_errs is_null]. repeat split; try apply JP_refl; try discriminate.
+  - intros H. destruct (c_errs c); discriminate.
+  - intros H. destruct (c_errs c'); discriminate.
+  - destruct (c_errs c); discriminate.
+  - destruct (c_errs c'); discriminate.
+Qed.
+
+Lemma field_result_rel1 nn kf p' c c' : crel c c' -> rel1 (field_result nn kf p' c) (field_result nn kf p' c').
+Proof.
+  intros H. unfold field_result.
+  assert (H' : crel (if nn then nonnull_wrap p' c else c) (if nn then nonnull_wrap p' c' else c'))
+    by (destruct nn; [apply nonnull_wrap_crel; exact H|exact H]).
+  destruct H' as (Hv & Hj & Hn & He & Hve). rewrite <- Hv.
+  destruct (c_viol (if nn then nonnull_wrap p' c else c)); cbn [fst snd].
+  - split; [left; split; reflexivity|exact He].
+  - split; [right; eexists _, _, _; repeat split; exact Hj|exact He].
+Qed.
+
+Definition lrel (a b : list json * list xerr * bool) : Prop :=
+  Forall2 jperm (fst (fst a)) (fst (fst b)) /\
+  Forall2 (fun x y => is_null x = is_null y) (fst (fst a)) (fst (fst b)) /\
+  (snd (fst a) = [] <-> snd (fst b) = []) /\ snd a = snd b /\
+  (snd a = true -> snd (fst a) <> [] /\ snd (fst b) <> []).
+
+Lemma lst_loop_lrel (cf cf' : fval -> list pel -> cres) p items :
+  (forall it q, crel (cf it q) (cf' it q)) -> forall i, lrel (lst_loop cf p i items) (lst_loop cf' p i items).
+Proof.
+  intros H. induction items as [|it rest IH]; intros i.
+  - cbn. repeat split; try constructor; try tauto; discriminate.
+  - cbn [lst_loop]. specialize (IH (i + 1)).
+    destruct (lst_loop cf p (i + 1) rest) as [[o e] v]. destruct (lst_loop cf' p (i + 1) rest) as [[o' e'] v'].
+    destruct IH as (I1 & I2 & I3 & I4 & I5). cbn [fst snd] in *.
+    destruct (H it (p ++ [PI i])) as (Hv & Hj & Hn & He & Hve).
+    unfold lrel. cbn [fst snd].
+    split; [constructor; assumption|]. split; [constructor; assumption|].
+    split; [rewrite !app_nil_iff; tauto|]. split; [rewrite Hv, I4; reflexivity|].
+    intros Hor. apply orb_true_iff in Hor. destruct Hor as [Hc|Hr].
+    + destruct (Hve Hc) as [X Y]. split; intros Hn'; apply app_eq_nil in Hn'; tauto.
+    + destruct (I5 Hr) as [X Y]. split; intros Hn'; apply app_eq_nil in Hn'; tauto.
+Qed.
+
+Lemma list_finish_crel a b : lrel a b -> crel (list_finish a) (list_finish b).
+Proof.
+  destruct a as [[o e] v]. destruct b as [[o' e'] v']. intros (I1 & I2 & I3 & I4 & I5). cbn [fst snd] in *. subst v'.
+  unfold list_finish, cnull. destruct v; cbn [c_viol c_json c_errs is_null].
+  - repeat split; try apply JP_refl; try tauto; discriminate.
+  - repeat split; try (apply JP_arr; exact I1); try tauto; discriminate.
+Qed.
+
+Section ListOrder.
+  Variable sc : schema.
+  Variable U : universe.
+  Variable frags : list fragment.
+  Variable vars : list (bytes * json).
+  Variables (T : name) (ts : list (bool * selection)).
+  Variables (flI flA flB : list selection) (c : nat).
+
+  Hypothesis HdT : declared_obj sc T = true.
+  Hypothesis HnE : bytes_eqb T s_Entity = false.
+  Hypothesis HI : flatten sc frags vars c T (map snd ts) = FlatOk flI.
+  Hypothesis HA : flatten sc frags vars c T (sel_untagged ts) = FlatOk flA.
+  Hypothesis HB : flatten sc frags vars c T (sel_tagged ts) = FlatOk flB.
+  Hypothesis HAB : flatten sc frags vars c T (sel_untagged ts ++ sel_tagged ts) = FlatOk (flA ++ flB).
+  Hypothesis Hd : keys_disjoint flA flB = true.
+
+  Lemma complete_obj_order cargs it q :
+    crel (complete_obj sc U frags vars Mono c T cargs it (map snd ts) q)
+         (complete_obj sc U frags vars Mono c T cargs it (sel_untagged ts ++ sel_tagged ts) q).
+  Proof.
+    unfold complete_obj.
+    destruct (obj_target U cargs it) as [[e|]|]; try (apply crel_refl; discriminate).
+    destruct (obj_type_ok sc T e) eqn:Eok; cbn [negb]; [|apply crel_refl; discriminate].
+    assert (HTe : en_type e = T) by (apply (obj_type_ok_object sc); assumption).
+    rewrite HTe.
+    pose proof (exec_interleave sc U frags vars Mono c T {| ov_ent := e; ov_repr := None |} ts q flI flA flB HI HA HB HAB Hd) as [E1 E2].
+    destruct (exec_sels sc U frags vars Mono c T {| ov_ent := e; ov_repr := None |} (map snd ts) q) as [o1 e1].
+    destruct (exec_sels sc U frags vars Mono c T {| ov_ent := e; ov_repr := None |} (sel_untagged ts ++ sel_tagged ts) q) as [o2 e2].
+    cbn [fst snd] in E1, E2.
+    destruct o1 as [l1|], o2 as [l2|]; try contradiction; unfold cnull; repeat split; cbn [c_viol c_json c_errs is_null];
+      try tauto; try discriminate; try apply JP_refl. apply jperm_of_perm. exact E1.
+  Qed.
+
+  Section LHopOrder.
+    Variables (P : name) (ovP : oval) (af : option name) (f : name) (args : list argument) (path : list pel).
+    Variables (nnl nni : bool) (td : type_def) (fd : field_def) (items : list fval).
+    Hypothesis Hname : bytes_eqb f s_typename = false.
+    Hypothesis Htd : find_type P (s_types sc) = Some td.
+    Hypothesis Hfd : find_field f (td_fields td) = Some fd.
+    Hypothesis Hty : fd_type fd = list_ty nnl nni T.
+    Hypothesis Hcomp : is_leaf_kind sc T = Some false.
+    Hypothesis Hfv : hop_fv ovP f = FLst items.
+
+    Lemma list_hop_order :
+      rel1 (exec_sels sc U frags vars Mono (list_hop_fuel nnl nni c) P ovP [SField af f args [] (map snd ts)] path)
+           (exec_sels sc U frags vars Mono (list_hop_fuel nnl nni c) P ovP [SField af f args [] (sel_untagged ts ++ sel_tagged ts)] path).
+    Proof.
+      rewrite !(list_hop_exec sc U frags vars P ovP af f args [] path nnl nni T td fd items Hname Htd Hfd Hty Hcomp Hfv c).
+      cbn [included]. apply field_result_rel1. apply list_finish_crel. apply lst_loop_lrel.
+      intros it q. unfold item_c, itemwrap. destruct nni; [apply nonnull_wrap_crel|]; apply complete_obj_order.
+    Qed.
+  End LHopOrder.
+End ListOrder.
